@@ -6,6 +6,14 @@ props = [json.loads(l) for l in open(os.path.join(HERE, 'properties.jsonl'))]
 
 # pid -> (technique, level text, level note, design ref)
 CLAIMED = {
+ 'C01': ('Lean 4 theorems on the hand-written differ/patcher model + differential correspondence with diff_notebooks/patch_notebook under the live differ tables',
+         'Lean theorems about the executable model of the notebook differ (multilevel snakes, output/mime/attachment differs) and the independent patcher; the live differ tables are extracted on every run, the similarity heuristics and difflib are recorded oracles, and model and code are compared on generated notebook pairs, fixture pairs and through the nbdiff --out / nbpatch file interface.',
+         'Trusted: Lean kernel, axioms {propext, Classical.choice, Quot.sound}, harness codec, oracle contracts K1/K4 (checked on recorded answers), nbformat read/write. Proved so far: sequence-level round trip for every matching; the full recursive statement is stated (C02_roundtrip_statement) and not yet proved, so beyond the sequence level the claim rests on the correspondence runs.',
+         '5/C01'),
+ 'C11': ('decidable WF predicate defined in the Lean model, run by the driver on every diff the implementation produces; jsonschema + JSON round trip; Lean theorems connect WF-shaped diffs with the patcher',
+         'The well-formedness notion of the property is a decidable predicate in the Lean model (NbdimeModel.WF); it is evaluated on every diff produced by the generic differ, the notebook differ and inside merge decisions, next to validation against the published diff schema and a JSON round trip.',
+         'Trusted: Lean kernel, axioms as above, jsonschema (Draft4) on the repository schema file. The theorem that every diff the *model* differ produces is WF is not yet proved; WF of implementation output is checked per produced diff (bounded by generated cases).',
+         '5/C11'),
  'C02': ('Lean 4 theorems on a hand-written model of diff/patch + differential correspondence with nbdime.diff/patch',
          'Lean theorems about the executable model of the generic differ and the independent patcher (round trip for every LCS matching, every oracle answer); the model is tied to /repo by running nbdime.diff/nbdime.patch and the model on the same generated and exhaustively enumerated pairs on every run, and the property itself is evaluated on the implementation with the model patcher as independent reference.',
          'Trusted: Lean kernel, axioms {propext, Classical.choice, Quot.sound}, harness codec, CPython difflib and the similarity heuristics as oracles (contracts K1,K4 checked on recorded answers). Known finding F-eq (numeric aliasing by Python ==) is matched by a classifier; theorems carry the NoAlias hypothesis or conclude pyEq.',
